@@ -101,36 +101,35 @@ class _AddOrRemoveNotifier:
                 else:
                     notifier.remove_from(observable)
             raise
-        else:
-            self._processed.clear()
+
+    def _add_or_remove_nested(self, object, graph):
+        """ Add or remove notifiers for another object and graph, recording
+        what has been done so that it is undone if a later step fails.
+        """
+        nested = _AddOrRemoveNotifier(
+            object=object,
+            graph=graph,
+            handler=self.handler,
+            target=self.target,
+            dispatcher=self.dispatcher,
+            remove=self.remove,
+        )
+        nested()
+        self._processed.extend(nested._processed)
 
     def _add_or_remove_extra_graphs(self):
         """ Add or remove additional ObserverGraph contributed by the root
         observer. e.g. for handing trait_added event.
         """
         for extra_graph in self.graph.node.iter_extra_graphs(self.graph):
-            add_or_remove_notifiers(
-                object=self.object,
-                graph=extra_graph,
-                handler=self.handler,
-                target=self.target,
-                dispatcher=self.dispatcher,
-                remove=self.remove,
-            )
+            self._add_or_remove_nested(self.object, extra_graph)
 
     def _add_or_remove_children_notifiers(self):
         """ Recursively add or remove notifiers for the children ObserverGraph.
         """
         for child_graph in self.graph.children:
             for next_object in self.graph.node.iter_objects(self.object):
-                add_or_remove_notifiers(
-                    object=next_object,
-                    graph=child_graph,
-                    handler=self.handler,
-                    target=self.target,
-                    dispatcher=self.dispatcher,
-                    remove=self.remove,
-                )
+                self._add_or_remove_nested(next_object, child_graph)
 
     def _add_or_remove_maintainers(self):
         """ Add or remove notifiers for maintaining children notifiers when
